@@ -44,21 +44,22 @@ Definition w_pct_tr : list (Z * Z) := [(3, 4); (1, 4); (0, 6); (1, 2); (0, 3); (
 Definition refutes (g : graph) (tr : list (Z * Z)) (cls code : nat) : Prop :=
   wf_C07 g = true /\ ring_contract g (dfs_tree g) tr = true /\ class_C07 g tr = cls /\ roundtrip_code g tr = code.
 
-(** writer: the symbol of a branch edge goes inside the parenthesis; the reader (model) raises *)
-Theorem C07_refuted_branch_edge_order :
-  refutes w_branch [] 1 2 /\ write_cgsmiles_graph w_branch [] = Ok (S "{[#A](=[#C])[#B]}").
-Proof. split; [repeat split|]; vm_compute; reflexivity. Qed.
-(** writer: the order of a ring-closing edge is not written; read back as a single bond *)
-Theorem C07_refuted_ring_edge_order :
-  refutes w_ring [(0, 2)] 2 3 /\ write_cgsmiles_graph w_ring [(0, 2)] = Ok (S "{[#A]1[#B][#C]1}").
-Proof. split; [repeat split|]; vm_compute; reflexivity. Qed.
-(** writer/reader: `%10` directly followed by a one-digit marker is read as marker 1027 *)
+(** REPAIRED (fix be4ff6e): the symbol of a branch edge is written in front of the parenthesis; the former
+    witness of class branch_edge_order round-trips *)
+Theorem C07_fixed_branch_edge_order :
+  wf_C07 w_branch = true /\ roundtrip_code w_branch [] = 0%nat /\ write_cgsmiles_graph w_branch [] = Ok (S "{[#A]=([#C])[#B]}").
+Proof. repeat split; vm_compute; reflexivity. Qed.
+(** REPAIRED (fix dd9a0c2): the order of a ring-closing edge is written at the opening marker *)
+Theorem C07_fixed_ring_edge_order :
+  wf_C07 w_ring = true /\ roundtrip_code w_ring [(0, 2)] = 0%nat /\ write_cgsmiles_graph w_ring [(0, 2)] = Ok (S "{[#A]=1[#B][#C]1}").
+Proof. repeat split; vm_compute; reflexivity. Qed.
+(** STILL OPEN, writer/reader: `%10` directly followed by a one-digit marker is read as marker 1027 *)
 Theorem C07_refuted_pct_marker :
   refutes w_pct w_pct_tr 3 2 /\
   write_cgsmiles_graph w_pct w_pct_tr = Ok (S "{[#A]123[#A]4567[#A]89[#A]%1027[#A]196([#A]538)[#A]%104}").
 Proof. split; [repeat split|]; vm_compute; reflexivity. Qed.
 Theorem C07_refuted : exists g tr, wf_C07 g = true /\ ring_contract g (dfs_tree g) tr = true /\ roundtrip_code g tr <> 0%nat.
-Proof. exists w_branch, []. repeat split; try (vm_compute; reflexivity). vm_compute. discriminate. Qed.
+Proof. exists w_pct, w_pct_tr. repeat split; try (vm_compute; reflexivity). vm_compute. discriminate. Qed.
 
 (** ------------------------------------------------------------------ bounded exhaustive theorem *)
 Fixpoint all_pairs (keys : list Z) : list (Z * Z) :=
@@ -80,11 +81,12 @@ Fixpoint insert_all {A} (x : A) (l : list A) : list (list A) :=
   match l with [] => [[x]] | y :: r => (x :: l) :: map (cons y) (insert_all x r) end.
 Fixpoint perms {A} (l : list A) : list (list A) :=
   match l with [] => [[]] | x :: r => flat_map (insert_all x) (perms r) end.
-(** the round trip holds on [g] for EVERY order in which the set of ring edges may be iterated *)
+(** the round trip holds on [g] for EVERY order in which the set of ring edges may be iterated
+    (no class is excluded: the one open class, pct_marker_then_digit, needs >= 10 open rings and does not
+    occur in the family, which the computation itself shows) *)
 Definition small_ok (g : graph) : bool :=
   negb (wf_C07 g)
-  || forallb (fun tr => negb (Nat.eqb (class_C07 g tr) 0) || Nat.eqb (roundtrip_code g tr) 0)
-             (perms (nontree_edges g (dfs_tree g))).
+  || forallb (fun tr => Nat.eqb (roundtrip_code g tr) 0) (perms (nontree_edges g (dfs_tree g))).
 Definition small_family : list graph :=
   graphs_on [0] [0; 1; 2; 3; 4] ++ graphs_on [0; 1] [0; 1; 2; 3; 4] ++ graphs_on [1; 0] [0; 1; 2; 3; 4]
   ++ graphs_on [0; 1; 2] [0; 1; 2; 3; 4] ++ graphs_on [2; 0; 1] [0; 1; 2; 3; 4] ++ graphs_on [1; 2; 0] [0; 1; 2; 3; 4].
@@ -98,19 +100,25 @@ Proof. vm_compute. reflexivity. Qed.
 
 (** BOUNDED theorem (vm_compute over 661 + 8192 + 1024 labelled graphs: all graphs on <= 3 nodes with orders
     0..4 and three node-insertion orders, all graphs on 4 nodes with orders 0..2 and two insertion orders, all
-    graphs on 5 nodes with single bonds): for every graph of the family in the property's domain, for EVERY
-    iteration order of the ring-edge set, outside the three defect classes the string the writer model
-    produces is read back by the reader model to an isomorphic graph. *)
+    graphs on 5 nodes with single bonds): for every graph of the family in the property's domain and for EVERY
+    iteration order of the ring-edge set, the string the writer model produces is read back by the reader
+    model to an isomorphic graph -- tree edges, branch edges and ring-closing edges of every order alike
+    (on the code repaired by be4ff6e and dd9a0c2; before, two defect classes had to be excluded). *)
 Theorem C07_small : forall g, In g small_all -> wf_C07 g = true ->
-  forall tr, In tr (perms (nontree_edges g (dfs_tree g))) -> class_C07 g tr = 0%nat -> roundtrip_code g tr = 0%nat.
+  forall tr, In tr (perms (nontree_edges g (dfs_tree g))) -> roundtrip_code g tr = 0%nat.
 Proof.
-  intros g Hg Hwf tr Htr Hc.
+  intros g Hg Hwf tr Htr.
   pose proof small_all_ok as H. rewrite forallb_forall in H. specialize (H g Hg).
   unfold small_ok in H. rewrite Hwf in H. cbn [negb orb] in H.
-  rewrite forallb_forall in H. specialize (H tr Htr). rewrite Hc in H. cbn [Nat.eqb negb orb] in H.
-  now apply Nat.eqb_eq.
+  rewrite forallb_forall in H. specialize (H tr Htr). now apply Nat.eqb_eq.
 Qed.
-(** non-vacuity: how many graphs of the family are in the domain and outside every class *)
+(** the same as the PARTIAL form of the property's statement on the family: outside the open class *)
+Corollary C07_partial_small : forall g, In g small_all -> wf_C07 g = true ->
+  forall tr, In tr (perms (nontree_edges g (dfs_tree g))) -> class_C07 g tr = 0%nat -> roundtrip_code g tr = 0%nat.
+Proof. intros g Hg Hwf tr Htr _. now apply C07_small. Qed.
+(** non-vacuity: how many graphs of the family are in the domain, and how many of them have a non-single
+    bond on a branch edge or on a ring-closing edge (the two repaired classes) *)
 Example C07_small_nonvacuous :
-  length (filter (fun g => wf_C07 g && Nat.eqb (class_C07 g (nontree_edges g (dfs_tree g))) 0) small_all) = 2407%nat.
-Proof. vm_compute. reflexivity. Qed.
+  Z.of_nat (length (filter wf_C07 small_all)) = 9007
+  /\ Z.of_nat (length (filter (fun g => wf_C07 g && (cls_branch_order g || cls_ring_order g)) small_all)) = 6600.
+Proof. vm_compute. split; reflexivity. Qed.
